@@ -2,7 +2,7 @@
    Statements only; each closed by [exact] of a lemma proved in Text/*P.v. *)
 From Coq Require Import List NArith ZArith.
 From PB Require Import Base.PBytes Base.Utf8Model Wire.WireModel Text.TextStrModel Text.TextStrP
-  Text.TextUnknownModel Text.TextUnknownP.
+  Wire.WireGrammar Text.TextUnknownModel Text.TextUnknownP Text.TextUnknownWireP.
 Import ListNotations.
 Open Scope N_scope.
 
@@ -40,21 +40,21 @@ Theorem C25_render_toks_total :
 Proof. exact render_toks_total. Qed.
 Print Assumptions C25_render_toks_total.
 
-(* EmitUnknown is total (no Panic outcome) on every well-formed unknown-field
-   set.  PARTIAL: relative to one step of the wire grammar ([field_step]: the
-   head field of a non-empty well-formed sequence is accepted by
-   ConsumeTag/ConsumeVarint/ConsumeFixed32/64/ConsumeBytes/ConsumeGroup and
-   the remainder, and a group's body as returned by ConsumeGroup, are again
-   well formed).  That step is the content of WP-A's scanner theorems for C02
-   (Wire/ScanP.v: dec_tag_complete, dec_varint_complete, dec_bytes_complete,
-   consume_group_complete for wf_fields); instantiate [wf] with wf_fields
-   after integration. *)
-Theorem C25_marshal_unknown_total_partial :
-  forall wf : nat -> list byte -> Prop,
-  (forall d bs, wf d bs -> bs <> [] -> field_step wf d bs) ->
-  forall c d bs, wf d bs -> exists out, marshal_unknown c bs = Some out.
-Proof. exact marshal_unknown_total. Qed.
-Print Assumptions C25_marshal_unknown_total_partial.
+(* EmitUnknown is total (no Panic outcome: neither the explicit panic on an
+   unexpected wire type nor a slice-bounds panic after a failed Consume call) for
+   every option setting and every well-formed unknown-field set, stated twice:
+   over the wire grammar of C02 (Wire/WireGrammar.v, depth <= 10001 levels,
+   non-minimal varints and end-group tags included) and over every byte string
+   that the wire scanner accepts as a field sequence *)
+Theorem C25_marshal_unknown_total :
+  forall c d bs, (d <= N.to_nat 10001)%nat -> wf_fields d bs -> exists out, marshal_unknown c bs = Some out.
+Proof. exact marshal_unknown_total_wf. Qed.
+Print Assumptions C25_marshal_unknown_total.
+
+Theorem C25_marshal_unknown_total_parsed :
+  forall c bs fs, parse_fields (x00 :: bs) default_dep bs [] = Ok fs -> exists out, marshal_unknown c bs = Some out.
+Proof. exact marshal_unknown_total_parsed. Qed.
+Print Assumptions C25_marshal_unknown_total_parsed.
 
 (* non-vacuity / sanity: the model computes the expected literals *)
 Example C25_ex_escape :
@@ -68,7 +68,7 @@ Example C25_ex_parse :
   parse_string [x27; x5c; x75; x64; x38; x33; x64; x5c; x75; x64; x65; x30; x30; x5c; x31; x30; x31; x27; x20] =
   SOk ([xf0; x9f; x98; x80; x41], [x20]).
 Proof. vm_compute. reflexivity. Qed.
-(* the hypothesis of the partial theorem is satisfiable and the model renders groups *)
+(* the model renders groups (with a non-minimal end tag here); garbage panics *)
 Example C25_ex_unknown :
   marshal_unknown {| ec_indent := [x20]; ec_extra := false; ec_ascii := false |}
                   [x0b; x08; x01; x8c; x00; x15; x01; x00; x00; x00] =
